@@ -34,6 +34,10 @@ def explore(ctx, depth):
     from . import c02
     cases += docrun.make_cases(ctx, 0, docs=[d for d in c02.join_pattern_docs() if len(d['headers']) == 2])
 
+    # spines of a type the library has no importer for (`**recip`, `**silbe` ...): never part of a selection by type that does not name them
+    ucases = docrun.make_cases(ctx, 4 if depth == 'quick' else 40, unknown=True, max_measures=2)
+    docrun.reuse_objects(ctx, cases + ucases, steps=48, ranges=False)
+
     def sels(case):
         hs = case.adoc['headers']
         out = [{'ids': s} for s in subsets(range(len(hs)))]
@@ -46,6 +50,13 @@ def explore(ctx, depth):
     def nt(case, combo, s):
         return len(case.adoc['headers']) >= 2 and any(r['kind'] == 'cells' and r['rk'] == 'split' for r in case.adoc['rows'])
 
+    def usels(case):
+        from kernpy.core.tokens import HEADERS as _H
+        known = sorted(set(h for h in case.adoc['headers'] if h in _H))
+        return [{'types': t} for t in subsets(known) if t]
+    docrun.run_option_sets(ctx, ucases, [{'enc': None, 'include': None, 'exclude': None}], usels,
+                           'export with a selection of spine types contains a spine of a type that was not selected (a type the library has no importer for)',
+                           'projection (documents with a spine of an unknown type)', nontriv=lambda *a: True)
     docrun.run_option_sets(ctx, cases, [{'enc': None, 'include': None, 'exclude': None}, {'enc': 'ekern', 'include': None, 'exclude': None}], sels,
                            'export with a spine selection is not the full export with the unselected columns deleted and all-null lines dropped',
                            'projection', nontriv=nt)
